@@ -22,7 +22,8 @@
 //!       Real `repair_index(read_all)` runs; then all index files are read.
 //!       -> `ok <label>:u<unmarked listings>m<marked listings><=|x>,… ?<listings of unknown packs>`
 //!  * `repo <variant> <seed>`       oracle only (model prints `ok`): real repository on `MemBackend`; backups, then
-//!       variant ∈ backup | prune-fast | prune-copy | prune-all | copy | merge; afterwards EVERY pack in the store is opened by the
+//!       variant ∈ backup | prune-fast | prune-copy | prune-all | copy | merge | rewrite (snapshots rewritten with excluded files: new tree
+//!       packs) | repair-snapshots (a data pack lost, `repair index`, `repair snapshots`: new tree packs); afterwards EVERY pack in the store is opened by the
 //!       independent parser below with the master key and compared with the index.
 //!  * `repair <variant> <seed>`     oracle only: as `repo`, then a seeded subset of index files (variant all|some|none +
 //!       optional `-readall`) is deleted, `repair_index` runs, then `check` must be clean and every snapshot must read
@@ -480,8 +481,8 @@ pub fn generate(thorough: bool, rng: &mut Rng, ops: &mut Vec<String>, stats: &mu
         ));
     }
     // --- repositories
-    let variants = ["backup", "prune-fast", "prune-copy", "prune-all", "copy", "merge"];
-    let n_repo = if thorough { 72 } else { 12 };
+    let variants = ["backup", "prune-fast", "prune-copy", "prune-all", "copy", "merge", "rewrite", "repair-snapshots"];
+    let n_repo = if thorough { 96 } else { 16 };
     for i in 0..n_repo {
         let v = variants[i % variants.len()];
         stats.hit(format!("repo.{v}"));
@@ -1042,6 +1043,60 @@ fn build_on(be: MemBackend, be2: MemBackend, rng: &mut Rng, variant: &str) -> Re
             // the merged snapshot must be readable as a whole (content = some union; only readability is required here)
             let r2 = h.open_nocache().map_err(|e| errkind(&e))?.to_indexed().map_err(|e| errkind(&e))?;
             _ = repo::read_back(&r2, &merged).map_err(|_| "oracle-fail:merged-snapshot-unreadable".to_string())?;
+        }
+        "rewrite" => {
+            // rewrite all snapshots with some files excluded: new trees are written (tree packs); the old snapshots stay
+            // (RewriteOptions::default keeps them) and must read back, the rewritten ones must be readable as a whole
+            let repo = h.open_nocache().map_err(|e| errkind(&e))?.to_indexed().map_err(|e| errkind(&e))?;
+            let all: Vec<SnapshotFile> = snaps.iter().map(|(s, _)| s.clone()).collect();
+            let glob = format!("!**/f00{}*", rng.below(8));
+            let topts = rustic_core::RewriteTreesOptions::default().excludes(rustic_core::Excludes::default().globs(vec![glob, "!**/d1/*".to_string()]));
+            let new = repo.rewrite_snapshots_and_trees(all, &rustic_core::RewriteOptions::default(), &topts).map_err(|e| errkind(&e))?;
+            let r2 = h.open_nocache().map_err(|e| errkind(&e))?.to_indexed().map_err(|e| errkind(&e))?;
+            if std::env::var("C08_DEBUG").is_ok() {
+                eprintln!("rewrite: {} new snapshots, {} with a new tree", new.len(), new.iter().filter(|n| snaps.iter().all(|(s, _)| s.tree != n.tree)).count());
+            }
+            for s in &new {
+                _ = repo::read_back(&r2, s).map_err(|_| "oracle-fail:rewritten-snapshot-unreadable".to_string())?;
+            }
+        }
+        "repair-snapshots" => {
+            // lose one data pack (file and index entry stay consistent: the pack is removed from storage and `repair index`
+            // drops it), then `repair snapshots` writes new trees without the damaged files; every pack that exists afterwards
+            // must still describe itself.  The original snapshots are replaced — only pack / index agreement is checked.
+            let packs = h.be.ids(FileType::Pack);
+            let repo = h.open_nocache().map_err(|e| errkind(&e))?.to_indexed().map_err(|e| errkind(&e))?;
+            let data_packs: Vec<Id> = {
+                let mut v = vec![];
+                for id in &h.be.ids(FileType::Index) {
+                    let f = rustic_core::verif::repository::dbe(&repo).get_file::<IndexFile>(&rustic_core::repofile::IndexId::from(*id)).map_err(|e| errkind(&e))?;
+                    v.extend(f.packs.iter().filter(|p| p.blob_type() == BlobType::Data && !p.blobs.is_empty()).map(|p| Id::from(*p.id)));
+                }
+                v.sort();
+                v
+            };
+            drop(repo);
+            if let Some(victim) = data_packs.get(rng.below(data_packs.len().max(1) as u64) as usize) {
+                if packs.contains(victim) {
+                    h.be.del_raw(FileType::Pack, victim);
+                }
+                let repo = h.open_nocache().map_err(|e| errkind(&e))?;
+                repo.repair_index(&RepairIndexOptions::default(), false).map_err(|e| errkind(&e))?;
+                let repo = h.open_nocache().map_err(|e| errkind(&e))?.to_indexed().map_err(|e| errkind(&e))?;
+                let all: Vec<SnapshotFile> = snaps.iter().map(|(s, _)| s.clone()).collect();
+                repo.repair_snapshots(&rustic_core::RepairSnapshotsOptions::default(), all, false).map_err(|e| errkind(&e))?;
+                drop(repo);
+                // what is left: the repaired snapshots (the damaged originals stay, tagged or not — they are not read here)
+                let repo = h.open_nocache().map_err(|e| errkind(&e))?;
+                let now = repo.get_all_snapshots().map_err(|e| errkind(&e))?;
+                let r2 = h.open_nocache().map_err(|e| errkind(&e))?.to_indexed().map_err(|e| errkind(&e))?;
+                let originals: BTreeSet<Id> = snaps.iter().map(|(s, _)| Id::from(*s.id)).collect();
+                for s in now.iter().filter(|s| !originals.contains(&Id::from(*s.id))) {
+                    _ = repo::read_back(&r2, s).map_err(|_| "oracle-fail:repaired-snapshot-unreadable".to_string())?;
+                }
+                _ = verify_packs(&h)?;
+                return Ok(Scenario { h, snaps: vec![] });
+            }
         }
         "copy" => {
             let cfg2 = config_for(rng);
@@ -1915,7 +1970,7 @@ pub fn exec(t: &[&str]) -> String {
             _ => "bad-op".into(),
         },
         ["repo", variant, seed] => match seed.parse::<u64>() {
-            Ok(s) if ["backup", "prune-fast", "prune-copy", "prune-all", "copy", "merge"].contains(variant) => exec_repo(variant, s),
+            Ok(s) if ["backup", "prune-fast", "prune-copy", "prune-all", "copy", "merge", "rewrite", "repair-snapshots"].contains(variant) => exec_repo(variant, s),
             _ => "bad-op".into(),
         },
         ["repair", variant, seed] => match seed.parse::<u64>() {
